@@ -4,6 +4,7 @@ open SophiaProofs.C13
 #print axioms bgp_multiset
 #print axioms single_graph_nodup
 #print axioms body_correct
+#print axioms graph_var_correct
 #print axioms eval_correct_partial
 #print axioms ask_correct
 #print axioms slice_sound
@@ -15,6 +16,7 @@ open SophiaProofs.C13
 #print axioms spec_refuses
 #print axioms no_panic
 #print axioms exprOK_termlevel
+#print axioms evalD_none
 #print axioms evalCorrectFull_refuted
 #print axioms dev_empty_named
 #print axioms dev_graph_prebind
